@@ -80,6 +80,21 @@ def apply (s : State) (op : Op) : State × String :=
     let s'' := settle s'
     (s'', ((resStr r ++ " | " ++ dump s'').take 300).toString)
 
+/-- `pushrm`: PushBack immediately followed by Remove of the new element, with no traverser
+    step in between (two consecutive atomic steps of the schedule); traversers run afterwards. -/
+def applyPushRm (s : State) : State × String :=
+  let (s1, r1) := stepR s .push
+  match r1 with
+  | .pushed id =>
+    let (s2, r2) := stepR s1 (.remove id)
+    match r2 with
+    | .panicWg => (s2, "panic:wg")
+    | r2 =>
+      let s3 := settle s2
+      (s3, ((s!"ok:{id}/" ++ resStr r2 ++ " | " ++ dump s3).take 300).toString)
+  | .poisoned => (s1, "err:poisoned")
+  | _ => (s1, "panic:wg")
+
 def pTrav (x : String) : Option Nat :=
   match pNat x with
   | some t => if t < maxTrav then some t else none
@@ -89,6 +104,7 @@ def step (s : State) (t : List String) : State × String :=
   let bad := (s, "err:badop")
   match t with
   | ["push"] => apply s .push
+  | ["pushrm"] => applyPushRm s
   | ["remove", x] => match pNat x with | some e => apply s (.remove e) | none => bad
   | ["detachprev", x] => match pNat x with | some e => apply s (.detachPrev e) | none => bad
   | ["detachnext", x] => match pNat x with | some e => apply s (.detachNext e) | none => bad
